@@ -453,6 +453,61 @@ def c18_7(ctx):
     return out
 
 
+def c18_10(ctx):
+    """MEMO: no hash position / bit position is remembered under a key that leaves out the filter's key, size or tweak"""
+    from sa.memo import memo_obligation
+    return memo_obligation(ctx, ["compactfilter", "bloomfilter"], "the position computed for one block's filter would be looked up in another block's filter")
+
+
+def c18_11(ctx):
+    """the compact-size codec the filter's element count and byte lengths go through (shared with C04.3)"""
+    from rules.C04 import c04_3
+    return c04_3(ctx)
+
+
+def c18_12(ctx):
+    """CFHeadersMessage chains the headers: header_n = H(filter_hash_n || header_{n-1}).  Evaluated with the hash as a formal
+    constructor over 0..4 filter hashes, so the comparison holds for every value"""
+    from sa.cells import Evaluator, Obj, Raised, Undecided
+    spec = "compactfilter:CFHeadersMessage.__init__"
+    mod, fn = rl.get(ctx, spec)
+
+    def opaque(name, args, kw):
+        if name == "hash256":
+            return b"H(" + args[0] + b")"
+        return NotImplemented
+    ps = param_names(fn)[1:]
+    for n in range(0, 5):
+        fhs = [b"<f%d>" % i for i in range(n)]
+        prev = b"<prev>"
+        want = prev
+        for fh in fhs:
+            want = b"H(" + fh + want + b")"
+        me = Obj("compactfilter", "CFHeadersMessage")
+        kw = {}
+        for p_ in ps:
+            if "hashes" in p_:
+                kw[p_] = list(fhs)
+            elif "previous" in p_:
+                kw[p_] = prev
+            elif "type" in p_:
+                kw[p_] = 0
+            else:
+                kw[p_] = b"<stop>"
+        try:
+            Evaluator(ctx.repo, opaque=opaque).call(spec, [], self_obj=me, kwargs=kw)
+        except Undecided as u:
+            return [ctx.err(spec, "constructor not evaluable for %d filter hashes: %s" % (n, u), fn, mod)]
+        except Raised as x:
+            return [ctx.bad(spec, "raises %s for %d filter hashes" % (x.name, n), fn, mod, key="header-chain")]
+        got = me.attrs.get("last_header")
+        if got != want:
+            return [ctx.bad(spec, "with %d filter hashes last_header is %s, BIP157 chains %s: a header after the first is not hash(filter hash || previous *header*)" % (
+                n, got.decode() if isinstance(got, bytes) else got, want.decode()), fn, mod, key="header-chain")]
+    ctx.count("cells", 5)
+    return [ctx.ok(spec, "last_header = H(f_n || H(f_{n-1} || ... H(f_1 || previous header))) for 0..4 filter hashes (formal hash)", fn, mod, key="header-chain")]
+
+
 def c18_8(ctx):
     """hashed_items: the range F = N*M is computed from the number N of items, and exactly N values are produced -- every
     iteration of the loop over the same item list appends one hashed value (an item skipped after N was taken makes the
@@ -532,5 +587,8 @@ OBLIGATIONS = [
     ("C18.7", "DATAFLOW", c18_7),
     ("C18.8", "COUNT per-iteration", c18_8),
     ("C18.9", "RANGE domain", c18_9),
+    ("C18.10", "MEMO", c18_10),
+    ("C18.11", "RANGE partition+agreement", c18_11),
+    ("C18.12", "CELLS formal hash", c18_12),
 ]
 FLOORS = {"C18.1": 8, "C18.2": 4, "C18.3": 3, "C18.4": 6, "C18.5": 3, "C18.6": 3, "C18.7": 3}
